@@ -138,6 +138,8 @@ func init() {
 			{"relWorksheet", "SourceRelationshipWorkSheet"},
 			{"relSharedStrings", "SourceRelationshipSharedStrings"},
 			{"ctWorksheet", "ContentTypeSpreadSheetMLWorksheet"},
+			{"relDrawing", "SourceRelationshipDrawingML"},
+			{"relTable", "SourceRelationshipTable"},
 		} {
 			v, ok := c05StrConst(c[1])
 			if !ok {
@@ -310,6 +312,62 @@ func init() {
 		fmt.Fprintf(w, "def newSheetPartPrefix : String := %s\ndef newSheetPartSuffix : String := %s\ndef newSheetRelFormat : String := %s\n",
 			leanStr(pre), leanStr(suf), leanStr(relFmt))
 
+		// copySheet: the copy takes the source's relationships minus drawing and table ones
+		if fd := funcDecl("File", "copySheet"); fd != nil {
+			body := src(fd.Body)
+			if !strings.Contains(body, "rel.Type != SourceRelationshipDrawingML && rel.Type != SourceRelationshipTable") ||
+				!strings.Contains(body, "f.relsReader(fromRels)") || !strings.Contains(body, "f.Relationships.Store(toRels, copied)") {
+				fail("copySheet: relationship copy skeleton (relsReader(fromRels), filter drawing/table, Store(toRels, copied))")
+			}
+		} else {
+			fail("func (*File) copySheet")
+		}
+		// DeleteSheet: guards and cascade
+		if fd := funcDecl("File", "DeleteSheet"); fd != nil {
+			body := src(fd.Body)
+			for _, pat := range []string{"f.SheetCount == 1 || idx == -1", "if !visible {", "f.deleteSheetFromWorkbookRels(v.ID)",
+				"f.removeContentTypesPart(ContentTypeSpreadSheetMLWorksheet, target)", "f.deleteCalcChain(v.SheetID, \"\")", "f.SheetCount--"} {
+				if !strings.Contains(body, pat) {
+					fail("DeleteSheet: skeleton `%s`", pat)
+				}
+			}
+		} else {
+			fail("func (*File) DeleteSheet")
+		}
+		// deleteCalcChain: the filter expression, verbatim
+		ccFilter := ""
+		if fd := funcDecl("File", "deleteCalcChain"); fd != nil {
+			ast.Inspect(fd, func(n ast.Node) bool {
+				if fl, ok := n.(*ast.FuncLit); ok && ccFilter == "" && len(fl.Body.List) == 1 {
+					if rs, ok := fl.Body.List[0].(*ast.ReturnStmt); ok && len(rs.Results) == 1 {
+						ccFilter = strings.Join(strings.Fields(src(rs.Results[0])), " ")
+					}
+				}
+				return true
+			})
+		}
+		if ccFilter == "" {
+			fail("deleteCalcChain: filter function literal")
+		}
+		fmt.Fprintf(w, "def deleteCalcChainFilter : String := %s\n", leanStr(ccFilter))
+		// shared strings: how the index of a new item is computed
+		sstFacts := func(fn string, pats ...string) {
+			fd := funcDecl("File", fn)
+			if fd == nil {
+				fail("func (*File) %s", fn)
+				return
+			}
+			body := src(fd.Body)
+			for _, p := range pats {
+				if !strings.Contains(body, p) {
+					fail("%s: skeleton `%s`", fn, p)
+				}
+			}
+		}
+		sstFacts("setSharedString", "if i, ok := f.sharedStringsMap[t.Val]; ok {", "sst.SI = append(sst.SI, xlsxSI{T: &t})",
+			"sst.Count = len(sst.SI)", "sst.UniqueCount = sst.Count", "f.sharedStringsMap[t.Val] = sst.UniqueCount - 1", "return sst.UniqueCount - 1, nil")
+		sstFacts("SetCellRichText", "if reflect.DeepEqual(strItem, si) {", "c.T, c.V = \"s\", strconv.Itoa(idx)", "sst.SI = append(sst.SI, si)",
+			"c.T, c.V = \"s\", strconv.Itoa(len(sst.SI)-1)")
 		// trimRow: is the slot counter advanced for every row (true) or only for kept rows (false)?
 		keeps := "false"
 		if fd := funcDecl("", "trimRow"); fd != nil {
